@@ -696,9 +696,9 @@ def oracle_traj(c, o):
         STATS['interior_cells_checked'] += 1
         if not rel_close(w[i] * cnt[i], vol[i], vol[i], 1e-4):
             return (f'layout {c["layout"]}: interior sample #{i}: weight*count = {w[i] * cnt[i]} but the Voronoi cell of the '
-                    f'{d}-D point set has volume {vol[i]} (product of per-axis spacings for separable layouts)')
+                    f'{d}-D point set has volume {vol[i]} (product of per-axis spacings for separable layouts)'), {'symptom': 'volume'}
         if not rel_close(o['scaled'][i], fac * w[i], fac * w[i], 1e-4):
-            return f'layout {c["layout"]}: scaling k-space by {c["a"]}: weight {w[i]} -> {o["scaled"][i]}, expected |a|^{d} = {fac} times'
+            return f'layout {c["layout"]}: scaling k-space by {c["a"]}: weight {w[i]} -> {o["scaled"][i]}, expected |a|^{d} = {fac} times', {'symptom': 'scaling'}
         if not rel_close(o['mirror'][i], w[i], w[i], 1e-4):
             return f'layout {c["layout"]}: exchanging ky and kx changes the interior weight {w[i]} -> {o["mirror"][i]}'
     # dense representation of the same samples: compare where the dense computation is interior as well
@@ -708,7 +708,7 @@ def oracle_traj(c, o):
         for i in range(len(w)):
             if sel[i] and r[1][i] and not rel_close(o['dense'][i], w[i], w[i], 1e-4):
                 return (f'layout {c["layout"]}: broadcast trajectory gives interior weight {w[i]}, the same samples as dense '
-                        f'tensors give {o["dense"][i]}')
+                        f'tensors give {o["dense"][i]}'), {'symptom': 'dense'}
     # translation (changes the far corners only)
     shifted = {'layout': c['layout'], 'geo': c['geo'],
                'ks': [{'shape': k['shape'], 'data': [v + s for v in k['data']]} if len(k['data']) > 1 else k
